@@ -18,7 +18,7 @@ EXPLANATION = (
     "(empty -> best of the current population; otherwise replaced iff strictly better). Linear::map is "
     "(end-start)*value+start, applied once through its input and output lens; in real_pso (template tree, K12) the "
     "mapping reads Progress<ValueOf<Iterations>> and writes InertiaWeight<ParticleVelocitiesUpdate>, the state the "
-    "velocity update reads, and runs once per pass; init stores the configured start weight. (R4) PersonalBestParticlesInit / ParticleVelocitiesInit leave exactly one memory / one velocity (one fresh draw from [-v_max, v_max] per dimension) per particle whatever their collections held before (re-initialisation). NOT decided: numeric "
+    "velocity update reads, and runs once per pass; init stores the configured start weight. (R4) PersonalBestParticlesInit / ParticleVelocitiesInit leave exactly one memory / one velocity (one fresh draw from [-v_max, v_max] per dimension) per particle whatever their collections held before (re-initialisation). (INIT) init() evaluated with every field of self a distinct symbol inserts exactly the state types of a reviewed table, under the component's own instantiation, each built from exactly the documented field or empty / zero. NOT decided: numeric "
     "values of the interpolation over a whole run.")
 ASSUMPTIONS = ["f64::clamp and IEEE arithmetic as modelled by the host"]
 
@@ -101,15 +101,6 @@ def r1_velocity_update(ctx):
                 bad.append(ctxs + ("moved particles keep their objective value",))
     ctx.check(not bad, "C18.R1", fn.key, "clamped-velocity-then-move", "stored weight %s, v_max %s, draw %s, sizes %s: update %s" % (bad[0] if bad else ("", "", "", "", "")), detail="%d scenarios" % n, loc=fn.loc())
     ctx.count("velocity_scenarios", n)
-    ini = F.method(adt, "init", COMP)
-    ins = [(b, t) for b, t in ini.body.calls() if t["f"].get("key") == "mahf::state::registry::StateRegistry::insert"]
-    good = len(ins) == 1 and ins[0][1]["f"]["gargs"][0].startswith(PSO + "InertiaWeight<" + adt)
-    if good:
-        from kinds import origin
-        v = ini.body.expr_of_op(ins[0][1]["args"][1])
-        ws = [x for x in subexprs(v) if x[0] == "field" and x[2] == fi["weight"]]
-        good = bool(ws)
-    ctx.check(good, "C18.R2", ini.key, "init-stores-configured-weight", "init does not insert InertiaWeight::<Self>::new(self.weight)", loc=ini.loc())
     # the weight is read from the state, not from the field, in execute
     reads = [1 for b in fn.body.normal_blocks() for st in fn.body.stmts(b) if st[0] == "=" and any(isinstance(e, list) and e[0] == "f" and e[1] == fi["weight"] and len(e) > 3 and e[3] == adt for e in _places(st))]
     ctx.check(not reads, "C18.R2", fn.key, "weight-from-state", "execute reads self.weight (the adaptive weight in the state would be ignored)", loc=fn.loc())
@@ -255,6 +246,7 @@ def r5_linear(ctx):
 
 
 def run(ctx):
+    ctx.guard("C18.INIT", "init installs the configured state", lambda: __import__("initspec").check_for(ctx, "C18"))
     ctx.guard("C18.K17", "constructor fidelity", lambda: __import__("ctor").check_for(ctx, "C18", 27))
     ctx.guard("C18.R1", "velocity update", lambda: r1_velocity_update(ctx))
     ctx.guard("C18.R3", "best memories", lambda: r3_best_memories(ctx))
